@@ -165,6 +165,7 @@ class State:
         self.ghost = {}      # named ghost scalars (e.g. call log counters)
         self.names = {}      # source identifier -> ('reg'|'addr', register)
         self.names_seen = set()   # identifiers bound at some point of this path (or of a merged arm)
+        self.ro = {}             # (frame id, register) -> callee whose read-only result it derives from
         self.assumed_ids = set()
         self.pathconds = []
         self.stops = []
@@ -194,6 +195,7 @@ class State:
         s.ghost = dict(self.ghost)
         s.names = dict(self.names)
         s.names_seen = set(getattr(self, 'names_seen', ()))
+        s.ro = dict(getattr(self, 'ro', {}))
         s.assumed_ids = set(self.assumed_ids)
         s.pathconds = list(self.pathconds)
         s.stops = list(self.stops)
